@@ -43,6 +43,7 @@ impl Scenario for C09 {
             read_faults: true,
             heartbeat: 0,
             explicit_drop_after_server_cancel: true,
+            empty_publish_before_server_cancel: false,
         };
         let mut life = gen_life(&mut cs, &lc);
         let mut rep_directed = 0u64;
